@@ -4,7 +4,7 @@ import common, zoo as zoolib, filelevel, workloads, iocommon
 from common import Pair, proof_stage, rebuild_tools, build_pqh, build_zoo, Lock, TRUSTED_BASE
 
 MODULE = "PQ.Props.C10"
-THEOREMS = ["PQ.C10." + t for t in ("source_sites_propagate", "source_calls_propagate", "next_reports")]
+THEOREMS = ["PQ.C10." + t for t in ("source_sites_propagate", "source_calls_propagate", "next_reports", "source_inventory_covers")]
 
 
 def phases(trace):
